@@ -1,5 +1,5 @@
 (* Properties_C06.v — cache replacement, cache-flush and goodbye semantics (statements only). *)
-From QV Require Import Base Fields SrcFacts Msg SrcDecisions Cache CacheSpec CacheProofs.
+From QV Require Import Base Fields SrcFacts Msg SrcDecisions Cache CacheSpec CacheProofs CacheAccept.
 Local Open Scope Z_scope.
 
 (* the match condition read from cache.cpp is the property's rule: identical name, type and data,
@@ -55,3 +55,30 @@ Example C06_example :
   length (c_entries c) = 2%nat /\ c_entries (fst (add 9 0 bye c)) = [] /\
   map fst (snd (add 9 0 bye c)) = [Expired a; Expired b].
 Proof. vm_compute. auto. Qed.
+
+(* ------------------------------------------------------------------ the whole property, over whole histories
+   CacheSpec.mon_cache is a timer-less reference cache written from the text of C05 / C06 / C18 with the
+   properties' own constants; it judges a history together with everything observed after each operation
+   (signals with their instants and the cache content at emission, lookup results).  For EVERY history of
+   ADD (TTL 0 .. 2 000 000 s, jitter 0..19) / ADV (exact scheduling) / ADVB (caller action ahead of a
+   simultaneously due firing) / LOOKUP operations, it accepts the run of the model of cache.cpp: an addition announces
+   an expiry exactly for each stored record it withdraws (TTL 0; every record of the name and type with the flush
+   bit) and for nothing else (code 2), replaced records leave silently, the announced record is gone when announced
+   (3), and every later lookup returns exactly the reference content - no duplicates, no TTL-0 record, unrelated
+   records untouched (8) *)
+Theorem C06_every_history_is_accepted ops :
+  script_ok 0 ops -> mon_cache ops (crun_g (0, empty_cache) ops) = None.
+Proof. exact (run_accepted ops). Qed.
+Print Assumptions C06_every_history_is_accepted.
+
+Example C06_acceptor_discriminates :
+  let a := set_ttl 120 (set_addr (A4 1) (set_type 1 (set_name (Some [97; 46]%N) default_record))) in
+  let b := set_addr (A4 2) a in
+  let bye := set_flush true (set_ttl 0 (set_addr (A4 3) a)) in
+  script_ok 0 [CAdd a 0; CAdd b 7; CAdd bye 0; CLookup None 255] /\
+  mon_cache [CAdd a 0; CAdd b 7; CAdd bye 0; CLookup None 255]
+            [[]; []; [OSig 0 (Expired a) [b]; OSig 0 (Expired b) []]; [OLookup []]] = None /\
+  mon_cache [CAdd a 0; CAdd b 7; CAdd bye 0; CLookup None 255]
+            [[]; []; [OSig 0 (Expired a) [b]]; [OLookup [b]]] = Some (2%N, 2%N) /\
+  mon_cache [CAdd a 0; CAdd a 7; CLookup None 255] [[]; []; [OLookup [a; a]]] = Some (2%N, 8%N).
+Proof. vm_compute. unfold ttl_ok. cbn. repeat split; try lia; try discriminate. Qed.
